@@ -1,11 +1,13 @@
 import TemplVerif.Drive.Common
 import TemplVerif.Drive.C17
+import TemplVerif.Drive.C04
 import Std.Data.HashMap
 open TemplVerif TemplVerif.Drive
 
 def dispatch (ws : List String) : Verdict :=
   match ws with
   | "C17" :: rest => C17.handle rest
+  | "C04" :: rest => C04.handle rest
   | _ => .badOp
 
 structure Stats where
@@ -21,7 +23,7 @@ structure Stats where
 partial def loop (h : IO.FS.Stream) (out : IO.FS.Stream) (st : Stats) (n : Nat) : IO Stats := do
   let line ← h.getLine
   if line.isEmpty then return st
-  let l := (line.dropRightWhile (fun c => c == '\n' || c == '\r'))
+  let l := (line.dropEndWhile (fun c => c == '\n' || c == '\r')).toString
   if l.isEmpty then loop h out st (n + 1) else
   let v := dispatch (l.splitOn " ")
   let mut st := { st with total := st.total + 1 }
